@@ -105,13 +105,16 @@ def k14_merge(ctx) -> None:
     else:
         ctx.note("_set_equivalent chooses the surviving root in another way (not judged)")
     # verified flag: arrangement A (flag read before the merge, re-marked after) or B (moved inside the loop)
-    flag = PT.find_all(f, f"_M_v = self.is_verified({a}) or self.is_verified({b})") or PT.find_all(f, f"_M_v = self.is_verified({b}) or self.is_verified({a})")
+    flag = [(n, bd) for n, bd in PT.find_all(f, "self.is_verified(_E_x) or self.is_verified(_E_y)") if {bd["_E_x"], bd["_E_y"]} == {a, b}]
     if flag:
-        vname = flag[0][1]["_M_v"]
-        fst = flag[0][0]
+        fexpr = flag[0][0]
+        fst = C.stmt_of(fexpr)
+        # the flag is a local assigned from the expression, or the expression itself is the test
+        tgt, val = PT.assign_value(fst)
+        vtext = norm(tgt) if tgt is not None and val is fexpr and isinstance(tgt, ast.Name) else norm(fexpr)
         before = all(C.dominates(f, fst, s) for s in stores)
         sets = [c for c in walk_local(f) if isinstance(c, ast.Call) and norm(c.func) == "self.set_verified" and c.args and norm(c.args[0]) in (a, b)]
-        after = [c for c in sets if (vname, True) in C.guard_texts(f, c) and all(_after(f, s, c) for s in stores)]
+        after = [c for c in sets if (vtext, True) in C.guard_texts(f, c) and all(_after(f, s, c) for s in stores)]
         if before and after:
             ctx.ok("K14", "the verified flag of either side is read before the merge and put on the merged class afterwards")
         else:
